@@ -113,18 +113,54 @@ func (c13) Run(ctx *RunCtx) {
 	if workspace {
 		root = "/sim/ws"
 	}
-	ctx.T("policy=%s workspace=%v enumerated=%v perm=%v twoDocs=%v policyB=%v", policyNames[policy], workspace, enumerated, perm, twoDocs, polB)
+	// configuration mode: the client toggles features.diagnostics during the burst
+	// and answers the server's workspace/configuration requests at once or late,
+	// so that refresh tasks and analyses started under different settings overlap
+	cfgMode := !enumerated && c.Pct("cfg-mode", 35)
+	cliDiag := true // what the client answers workspace/configuration with
+	if cfgMode {
+		cliDiag = c.Bool("diagnostics-initially-on")
+	}
+	cfgPayload := func(on bool) J { return J{"features": J{"diagnostics": on}} }
+	ctx.T("policy=%s workspace=%v enumerated=%v perm=%v twoDocs=%v policyB=%v cfgMode=%v diagnostics=%v", policyNames[policy], workspace, enumerated, perm, twoDocs, polB, cfgMode, cliDiag)
 	fail := func(class, msg string) {
 		ctx.T("VERDICT %s: %s", class, msg)
 		ctx.Fail(&Violation{Property: "C13", Oracle: "last-publish-marker", Class: class, Msg: msg})
 	}
 	defer d.Teardown()
-	if r := d.Call("initialize", InitParams(root, c.Bool("folders"), false, nil)); r == nil {
+	var initOpts any
+	if cfgMode {
+		initOpts = J{"hledger": cfgPayload(cliDiag)}
+	}
+	folders := c.Bool("folders")
+	if r := d.Call("initialize", InitParams(root, folders, cfgMode, initOpts)); r == nil {
 		fail("no-initialize-response", "initialize was not answered")
 		return
 	}
 	d.Notify("initialized", J{})
 	d.Quiesce()
+	answerCfg := func(all bool) {
+		for _, id := range d.Sess.PendingServerRequests() {
+			if all || c.Pct("cfg-answer-now", 60) {
+				d.Sess.Respond(id, []any{cfgPayload(cliDiag)}, nil)
+				ctx.T("client answers workspace/configuration #%s: features.diagnostics=%v", id, cliDiag)
+			} else {
+				ctx.Stats.Inc("fault:cfg-late")
+			}
+		}
+	}
+	if cfgMode {
+		answerCfg(true)
+		d.Quiesce()
+	}
+	// settled[i]: the last change of document i was sent while the server was
+	// quiescent and the configuration did not change afterwards, i.e. the
+	// settings its analysis runs under are unambiguous
+	settled := []bool{true, true}
+	var spawnDoc []int // document of the n-th analysis-spawning notification of the burst
+	serverQuiet := func() bool {
+		return d.LiveBg() == 0 && !d.Sess.InboundPending() && len(d.S.RunnableTasks()) == 0 && len(d.Sess.PendingServerRequests()) == 0
+	}
 	uris := []string{"file:///sim/ws/main.journal", "file:///sim/ws/a.journal"}
 	extras := []string{"include a.journal\n", ""}
 	version := []int{0, 0}
@@ -167,7 +203,20 @@ func (c13) Run(ctx *RunCtx) {
 		if !enumerated {
 			kind = c.Weighted("burst-kind", []int{6, 2, 1, 3})
 		}
+		if cfgMode && c.Pct("cfg-toggle", 30) {
+			kind = 4
+		}
+		if kind != 4 {
+			settled[i] = serverQuiet()
+			spawnDoc = append(spawnDoc, i) // one analysis task per didOpen/didChange
+		}
 		switch kind {
+		case 4:
+			cliDiag = !cliDiag
+			settled[0], settled[1] = false, false
+			d.Notify("workspace/didChangeConfiguration", J{"settings": nil})
+			ctx.T("didChangeConfiguration: the client's features.diagnostics is now %v", cliDiag)
+			ctx.Stats.Inc("probe:configuration-toggled-during-burst")
 		case 3:
 			// the text changes, its diagnostics do not: same marker, one more comment line
 			rev[i]++
@@ -196,6 +245,20 @@ func (c13) Run(ctx *RunCtx) {
 		}
 		if !enumerated {
 			d.PumpN(c.Choose("steps-between", 12))
+		}
+		if cfgMode {
+			answerCfg(false)
+		}
+	}
+	if cfgMode {
+		// every request is answered eventually; the answers carry what the
+		// client's configuration is at that moment
+		for n := 0; n < 8; n++ {
+			d.Quiesce()
+			if len(d.Sess.PendingServerRequests()) == 0 {
+				break
+			}
+			answerCfg(true)
 		}
 	}
 	if enumerated {
@@ -295,6 +358,63 @@ func (c13) Run(ctx *RunCtx) {
 		}
 		return m
 	}
+	// publisher attributes the last publish of document i to the burst change
+	// whose analysis task wrote it (ok=false: not written by such a task, or the
+	// tasks cannot be matched to the notifications one to one)
+	analysisTasks := func() []*simrt.Task {
+		var analysis []*simrt.Task
+		for _, t := range d.S.Tasks[firstBurstTask:] {
+			if !strings.Contains(t.Site, "settings.go") {
+				analysis = append(analysis, t)
+			}
+		}
+		return analysis
+	}
+	// publishedBy: the diagnostics the analysis task of burst change n published last for document i ("" = none)
+	publishedBy := func(i, n int) string {
+		analysis := analysisTasks()
+		out := ""
+		for k := range d.Sess.Out {
+			if m := &d.Sess.Out[k]; m.Method == "textDocument/publishDiagnostics" && n < len(analysis) && m.Task == analysis[n].ID {
+				var p struct {
+					URI         string          `json:"uri"`
+					Diagnostics json.RawMessage `json:"diagnostics"`
+				}
+				json.Unmarshal(m.Params, &p)
+				if p.URI == uris[i] {
+					out = canon(p.Diagnostics)
+				}
+			}
+		}
+		return out
+	}
+	publisher := func(i int) (by, latest int, ok bool) {
+		analysis := analysisTasks()
+		if len(analysis) != len(spawnDoc) {
+			return 0, 0, false
+		}
+		lastTask := -1
+		for k := range d.Sess.Out {
+			if m := &d.Sess.Out[k]; m.Method == "textDocument/publishDiagnostics" {
+				if u, _ := publishMarkers(m.Params); u == uris[i] {
+					lastTask = m.Task
+				}
+			}
+		}
+		by, latest = -1, -1
+		for n, t := range analysis {
+			if spawnDoc[n] == i {
+				latest = n
+			}
+			if t.ID == lastTask {
+				by = n
+			}
+		}
+		if by < 0 || latest < 0 || spawnDoc[by] != i {
+			return 0, 0, false
+		}
+		return by, latest, true
+	}
 	if !ctx.Race && len(ctx.Violations) == 0 {
 		spec := RefSpec{Env: env.Clone(), Init: InitParams(root, false, false, nil), Initialized: true}
 		for i := 0; i < ndocs; i++ {
@@ -309,8 +429,31 @@ func (c13) Run(ctx *RunCtx) {
 		d.Resume()
 		got := lastPub(d.Sess.Out)
 		for i := 0; i < ndocs; i++ {
-			if open[i] && got[uris[i]] != want[uris[i]] {
-				fail("final-diagnostics-differ-from-latest-content", fmt.Sprintf("the last diagnostics published for d%d are %s; a fresh server given the final text publishes %s", i+1, trunc(got[uris[i]], 300), trunc(want[uris[i]], 300)))
+			if !open[i] {
+				continue
+			}
+			g, w := got[uris[i]], want[uris[i]]
+			if cfgMode {
+				// with diagnostics switched off the server publishes an empty list
+				switch {
+				case settled[i] && !cliDiag:
+					w = "[]"
+				case !settled[i] && g == "[]":
+					// the analysis of the latest change may have run under either
+					// setting - but the empty list must not come from the analysis of
+					// a superseded change of this document
+					// (with diagnostics switched off in the end an empty list is what a
+					// fresh server shows too, whoever sent it)
+					if by, latest, ok := publisher(i); cliDiag && ok && by != latest && publishedBy(i, latest) != "" && publishedBy(i, latest) != "[]" {
+						fail("stale-final-publish", fmt.Sprintf("document d%d: the last publish (an empty list, diagnostics switched off) was sent by the analysis of its change #%d of the burst AFTER the analysis of its latest change #%d had published %s: diagnostics computed for a superseded version remain the final word", i+1, by+1, latest+1, trunc(publishedBy(i, latest), 200)))
+						return
+					}
+					ctx.Stats.Inc("probe:final-publish-under-unsettled-configuration")
+					w = "[]"
+				}
+			}
+			if g != w {
+				fail("final-diagnostics-differ-from-latest-content", fmt.Sprintf("the last diagnostics published for d%d are %s; a fresh server given the final text (features.diagnostics=%v, settled=%v) publishes %s", i+1, trunc(g, 300), cliDiag, settled[i], trunc(w, 300)))
 				return
 			}
 		}
@@ -325,6 +468,9 @@ func (c13) Run(ctx *RunCtx) {
 		if !ok {
 			fail("no-publish", fmt.Sprintf("no diagnostics were ever published for open document d%d", i+1))
 			return
+		}
+		if cfgMode && len(marks) == 0 && (!settled[i] || !cliDiag) {
+			continue // an empty list is legal here (judged above against the fresh server)
 		}
 		want := version[i] + 1
 		if len(marks) != 1 || marks[0] != want {
